@@ -175,14 +175,31 @@ def check(an: Analysis) -> None:
             anys = isin
             ob4.inst(f, isin[0].ast)
         if not matcher_ok:
-            ob4.fail(f, rh, "the retry decision does not test isinstance(<caught exception>, e) over all of `catching`")
+            # the test may live in a small helper: <helper>(exc, catching) -> bool
+            for n in [n for n in g.nodes if n.kind == "test" and within(n.ast, rh) and isinstance(n.ast, ast.Call)]:
+                t = prog.functions.get(an.callee(f, n.ast) or "")
+                if t is None or t.is_async:
+                    continue
+                params = [x.arg for x in t.node.args.posonlyargs + t.node.args.args + t.node.args.kwonlyargs]
+                bound: dict[str, ast.AST] = dict(zip(params, n.ast.args))
+                bound.update({k.arg: k.value for k in n.ast.keywords if k.arg})
+                p_exc = next((k for k, v in bound.items() if is_name(v, exc_name or "")), None)
+                p_cat = next((k for k, v in bound.items() if is_name(v, "catching")), None)
+                if p_exc and p_cat and _helper_tests_isinstance(t, p_exc, p_cat):
+                    matcher_ok = True
+                    anys = [n]
+                    ob4.inst(f, n.ast, f"through helper {t.short}")
+                    break
+        if not matcher_ok:
+            ob4.missing(f, rh, "the retry decision does not test isinstance(<caught exception>, e) over all of `catching`")
         else:
             m = anys[0]
             w = g.search([next(n for n in g.nodes if n.kind == "handler" and n.ast is rh)], lambda n: n is head, skip_edge=lambda a, b, lab: a is m and lab == "T")
             if w is not None:
                 ob4.fail(f, m.ast, "an exception outside the caught set can be retried", CFG.show_path(w))
-        # ------------------------------------------------------------ C14.5-7 delay dispatch
-        matches = [m for m in f.own_nodes() if isinstance(m, ast.Match) and within(m, rh) and is_name(m.subject, "delay")]
+        # ------------------------------------------------------------ C14.5-7 delay dispatch (typed scenarios; match or if/isinstance)
+        from ..kinds import A_FLOAT, A_FUNC, A_INT, Scenario
+
         sleep_callee = "asyncio.sleep" if is_async else "time.sleep"
         sleeps = [n for n in g.nodes if n.kind == "call" and an.callee(f, n.ast) == sleep_callee]
         for n in sleeps:
@@ -191,91 +208,65 @@ def check(an: Analysis) -> None:
                 ob6.fail(f, n.ast, "the pause is created but not awaited")
             if not within(n.ast, rh):
                 ob6.fail(f, n.ast, "a pause is taken outside the retry branch")
+            if any(isinstance(p2, (ast.While, ast.For)) and within(p2, rh) for p2 in _ancestors(n.ast)):
+                ob6.fail(f, n.ast, "pause inside a loop")
         if is_async:
             for n in g.nodes:
                 if n.kind == "call" and an.callee(f, n.ast) == "time.sleep":
                     ob6.fail(f, n.ast, "blocking time.sleep in the async wrapper")
-        if len(matches) != 1:
-            ob5.fail(f, rh, f"expected one `match delay` dispatch in the retry branch, found {len(matches)}")
-            continue
-        m = matches[0]
         ann = next((p.annotation for p in outer.params() if p.arg == "delay"), None)
         ann_txt = ast.unparse(ann) if ann is not None else ""
-        arms = []  # (kind, case)
-        for case in m.cases:
-            p = case.pattern
-            classes = _pattern_classes(p)
-            if isinstance(p, ast.MatchSingleton) and p.value is None:
-                arms.append(("none", case))
-            elif classes:
-                arms.append(("numeric:" + ",".join(sorted(classes)), case))
-            elif isinstance(p, ast.MatchAs) and p.pattern is None and p.name and case.guard is None:
-                arms.append(("capture", case))
-            else:
-                arms.append(("other", case))
-        ob5.inst(f, m, ", ".join(k for k, _ in arms))
-        kinds_ = [k for k, _ in arms]
-        if "none" not in kinds_:
-            ob5.fail(f, m, "no `case None` arm: delay=None would be called as a delay function")
-        if kinds_[-1:] != ["capture"] or kinds_.count("capture") != 1:
-            ob5.fail(f, m, "the catch-all (callable) arm is not the last, only capture arm")
-        if "other" in kinds_:
-            ob5.fail(f, next(c for k, c in arms if k == "other"), "unrecognised delay arm")
-        numeric = set()
-        for k, _ in arms:
-            if k.startswith("numeric:"):
-                numeric |= set(k[8:].split(","))
-        if "float" in ann_txt:
-            missing = {"int", "float"} - numeric
-            if missing:
-                ob5.fail(f, next((c for k, c in arms if k.startswith("numeric:")), m), f"delay is declared `{ann_txt}` but no arm matches {sorted(missing)}: such a value falls into the callable arm and is *called* (TypeError on the first failure)")
-        # no pause once the decision not to retry is taken (exactly limit pauses for limit+1 calls)
         rh_entry = next(n for n in g.nodes if n.kind == "handler" and n.ast is rh)
-        raises_in_h = [n for n in g.nodes if n.kind == "raise" and within(n.ast, rh)]
-        for rn in raises_in_h:
-            w = g.search([rh_entry], lambda n, rn=rn: n is rn, skip_edge=normal_only)
-            if w is not None and any(x in sleeps for x in w):
-                ob6.fail(f, rn.ast, "a pause is taken before giving up: after the last allowed attempt the caller still waits one more delay (and the delay function gets an extra call with attempt limit+1)", CFG.show_path(w))
-            else:
-                # any path handler -> raise that passes a sleep
-                for sn in sleeps:
-                    w1 = g.search([rh_entry], lambda n, sn=sn: n is sn, skip_edge=normal_only)
-                    w2 = g.search([sn], lambda n, rn=rn: n is rn, skip_node=lambda n: n is head, skip_edge=normal_only)
-                    if w1 is not None and w2 is not None:
-                        ob6.fail(f, rn.ast, "a pause is taken before giving up: after the last allowed attempt the caller still waits one more delay (and the delay function gets an extra call with attempt limit+1)", CFG.show_path(w1 + w2[1:]))
-                        break
-        # per-arm pauses
-        for k, case in arms:
-            cn = next((n for n in g.nodes if n.kind == "match-case" and n.ast is case), None)
-            if cn is None:
+        kinds_of_delay = [("None", None), ("a float", A_FLOAT), ("a callable", A_FUNC)]
+        if "float" in ann_txt:
+            kinds_of_delay.insert(1, ("an int", A_INT))
+        for label, value in kinds_of_delay:
+
+            def base(e: ast.AST, value=value):
+                if is_name(e, "delay"):
+                    return value
+                if isinstance(e, ast.Compare) and e is guard.ast:
+                    return True  # a retry is being made
+                if matcher_ok and e is anys[0].ast:
+                    return True
+                return NOVALUE
+
+            sc = Scenario(g, d, base)
+            lo, hi = g.count_range(lambda n: n in sleeps, rh_entry, lambda n: n is head, skip_edge=lambda a, b, lab: sc.skip(a, b, lab) or lab in ("exc", "reraise"))
+            ob5.inst(f, rh, f"delay is {label}: {lo}..{hi} pause(s) before the next attempt")
+            want = (0, 0) if value is None else (1, 1)
+            if (lo, hi) == (-1, -1):
+                ob5.fail(f, rh, f"with delay = {label} no path leads to the next attempt")
                 continue
-            starts = [t for t, lab in cn.succ if lab == "T"]
-            lo = hi = None
-            for s in starts:
-                a, b = g.count_range(lambda n: n in sleeps, cn, lambda n: n is head, skip_edge=lambda x, y, lab: (x is cn and lab != "T") or lab in ("exc", "reraise"))
-                lo, hi = a, b
-            ob6.inst(f, case, f"{k}: {lo}..{hi} pauses")
-            want = (0, 0) if k == "none" else (1, 1)
-            if (lo, hi) != want and (lo, hi) != (-1, -1):
-                ob6.fail(f, case, f"the `{k}` arm takes {lo}..{hi} pauses between attempts (required {want[0]})")
-            arm_sleeps = [n for n in sleeps if within(n.ast, case)]
-            for sn in arm_sleeps:
-                if any(isinstance(p2, (ast.While, ast.For)) and within(p2, case) for p2 in _ancestors(sn.ast)):
-                    ob6.fail(f, sn.ast, "pause inside a loop")
-                arg = sn.ast.args[0] if sn.ast.args else None  # type: ignore[union-attr]
-                ob7.inst(f, sn.ast, k)
-                cap = _capture_name(case.pattern)
-                if k.startswith("numeric"):
-                    if not is_name(arg, cap or ""):
-                        ob7.fail(f, sn.ast, "the numeric arm does not pause for the configured number")
-                elif k == "capture":
-                    ok = isinstance(arg, ast.Call) and is_name(arg.func, cap or "") and len(arg.args) == 2 and not arg.keywords and is_name(arg.args[0], ctr) and is_name(arg.args[1], exc_name or "")
+            if (lo, hi) != want:
+                ob6.fail(f, rh, f"with delay = {label} the wrapper takes {lo}..{hi} pauses between attempts (required {want[0]})")
+                continue
+            reach = g.reachable([rh_entry], skip_edge=lambda a, b, lab: sc.skip(a, b, lab) or lab in ("exc", "reraise"))
+            for sn in [n for n in sleeps if n.id in reach]:
+                arg = unwrap(sn.ast.args[0]) if sn.ast.args else None  # type: ignore[union-attr]
+                ob7.inst(f, sn.ast, f"delay is {label}")
+                if value is A_FUNC:
+                    ok = isinstance(arg, ast.Call) and d.origins(arg.func) <= {"param:delay"} and bool(d.origins(arg.func)) and len(arg.args) == 2 and not arg.keywords and is_name(arg.args[0], ctr) and is_name(arg.args[1], exc_name or "")
                     if not ok:
                         ob7.fail(f, sn.ast, f"the delay function is not applied to ({ctr}, {exc_name}) in that order")
                     else:
-                        w = g.search([next(n for n in g.nodes if n.kind == "handler" and n.ast is rh)], lambda n, sn=sn: n is sn, skip_node=lambda n: n in incs)
+                        w = g.search([rh_entry], lambda n, sn=sn: n is sn, skip_node=lambda n: n in incs, skip_edge=sc.skip)
                         if w is not None:
                             ob7.fail(f, sn.ast, "the delay function sees the attempt number before it was advanced (attempt numbers start at 1)", CFG.show_path(w))
+                else:
+                    if isinstance(arg, ast.Call) and d.origins(arg.func) <= {"param:delay"} and d.origins(arg.func):
+                        ob5.fail(f, sn.ast, f"delay is declared `{ann_txt}` but {label} is not matched by the numeric arm: it falls into the callable arm and is *called* (TypeError on the first failure)")
+                    elif not (arg is not None and d.origins(arg) <= {"param:delay"} and d.origins(arg)):
+                        ob7.fail(f, sn.ast, "the numeric arm does not pause for the configured number")
+        # no pause once the decision not to retry is taken (exactly limit pauses for limit+1 calls)
+        raises_in_h = [n for n in g.nodes if n.kind == "raise" and within(n.ast, rh)]
+        for rn in raises_in_h:
+            for sn in sleeps:
+                w1 = g.search([rh_entry], lambda n, sn=sn: n is sn, skip_edge=normal_only)
+                w2 = g.search([sn], lambda n, rn=rn: n is rn, skip_node=lambda n: n is head, skip_edge=normal_only)
+                if w1 is not None and w2 is not None:
+                    ob6.fail(f, rn.ast, "a pause is taken before giving up: after the last allowed attempt the caller still waits one more delay (and the delay function gets an extra call with attempt limit+1)", CFG.show_path(w1 + w2[1:]))
+                    break
     # retry() normalisation of `catching`
     wrap = prog.fn("helpers.retries.retry._wrap")
     ctor = [c for c in wrap.own_nodes() if isinstance(c, ast.Call) and an.callee(wrap, c) in (prog.fn("helpers.retries._wrap_sync").qualname, prog.fn("helpers.retries._wrap_async").qualname)]
@@ -290,6 +281,34 @@ def check(an: Analysis) -> None:
             ob4.fail(wrap, c, "a single exception class is not normalised to a collection (iterating a class raises TypeError on the first failure)")
         if not (is_name(kws.get("limit"), "limit") and is_name(kws.get("delay"), "delay") and c.args and is_name(c.args[0], "function")):
             ob4.fail(wrap, c, "limit / delay / function are not passed on unchanged")
+
+
+def _helper_tests_isinstance(t: FunctionInfo, p_exc: str, p_cat: str) -> bool:
+    """Helper returns True exactly when isinstance(<p_exc>, e) holds for some e of <p_cat> (any(...) or an
+    explicit loop with early `return True` and a final `return False`)."""
+    body = [s for s in t.node.body if not (isinstance(s, ast.Expr) and isinstance(s.value, ast.Constant))]
+
+    def is_test(e: ast.AST, var: str) -> bool:
+        return isinstance(e, ast.Call) and is_name(e.func, "isinstance") and len(e.args) == 2 and is_name(e.args[0], p_exc) and is_name(e.args[1], var)
+
+    if len(body) == 1 and isinstance(body[0], ast.Return):
+        v = unwrap(body[0].value)
+        if isinstance(v, ast.Call) and is_name(v.func, "any") and v.args and isinstance(v.args[0], (ast.GeneratorExp, ast.ListComp)):
+            gen = v.args[0]
+            gg = gen.generators[0]
+            return len(gen.generators) == 1 and not gg.ifs and is_name(gg.iter, p_cat) and isinstance(gg.target, ast.Name) and is_test(gen.elt, gg.target.id)
+        if isinstance(v, ast.Call) and is_name(v.func, "isinstance") and len(v.args) == 2 and is_name(v.args[0], p_exc):
+            a = v.args[1]
+            return is_name(a, p_cat) or (isinstance(a, ast.Call) and is_name(a.func, "tuple") and a.args and is_name(a.args[0], p_cat))
+        return False
+    if len(body) == 2 and isinstance(body[0], ast.For) and isinstance(body[1], ast.Return):
+        lp, last = body
+        if not (is_name(lp.iter, p_cat) and isinstance(lp.target, ast.Name) and not lp.orelse and isinstance(last.value, ast.Constant) and last.value.value is False):
+            return False
+        if len(lp.body) == 1 and isinstance(lp.body[0], ast.If) and not lp.body[0].orelse and is_test(lp.body[0].test, lp.target.id):
+            inner = lp.body[0].body
+            return len(inner) == 1 and isinstance(inner[0], ast.Return) and isinstance(inner[0].value, ast.Constant) and inner[0].value.value is True
+    return False
 
 
 def _await_of(g: CFG, call: Node) -> Node | None:
